@@ -113,6 +113,7 @@ func cmdFn(args []string) int {
 		for _, u := range tx.unsupported {
 			fmt.Println("UNSUPPORTED", key, u)
 		}
+		maxFailures = 1 << 30 // debugging command: decide every obligation
 		dischargeAll(tx.obls, dir, *timeout, 5)
 		for _, o := range tx.obls {
 			fmt.Printf("%-10s %-8s %6.2fs %s\n", o.Status, o.Solver, o.TimeS, o.Name)
